@@ -1,6 +1,7 @@
 import GoguVerif.Go.Run
 import GoguVerif.Kinds.QueueStack
 import GoguVerif.Kinds.Heap
+import GoguVerif.Kinds.Trees
 /-!
 # The compiled driver
 
@@ -22,6 +23,10 @@ def kindOf (name : String) : Option Kind :=
   | "queue" => some Kinds.Q.queueKind
   | "stack" => some Kinds.S.stackKind
   | "heap" => some Kinds.Heap.kind
+  | "bst" => some Kinds.Bst.kind
+  | "btree" => some Kinds.BTree.kind
+  | "trie" => some Kinds.Trie.kind
+  | "lru" => some Kinds.Lru.kind
   | "lqueue" => some Kinds.Q.lqueueSpecOnly
   | "lstack" => some Kinds.S.lstackMonitor
   | _ => none
